@@ -224,6 +224,8 @@ fn irr(rng: &mut Rng, ctx: &mut Ctx) {
             let ncodes = 1 + (rng.next() % 3) as usize; let mut codes: Vec<(u8, u16)> = vec![];
             while codes.len() < ncodes { let c = [0x11u8, 0x34, 0x3E, 0x3F, 0x0F, 0x00, 0xFF, 0x7B, 0x55, 0x7D][(rng.next() % 10) as usize]; if !KNOWN.contains(&c) && !codes.iter().any(|x| x.0 == c) { let size: u16 = match rng.next() % 14 { 0 => 1, 1 => 255, 2 => 256, 3 => 512, 4 => 516, 5 => 65534, 6 => 65535, _ => 1 + (rng.next() % 600) as u16 }; codes.push((c, size)); } }
             r.extra_payloads = codes.clone();
+            // entries for codes that are declared but never occur (a newer recorder's event this game did not produce), small and huge
+            if k % 2 == 0 { for (c, sz) in [(0x40u8, [1u16, 255, 4096, 65535][(k / 2) % 4]), (0x41, 65535)].iter().take(1 + (k / 8) % 2) { if !KNOWN.contains(c) && !r.extra_payloads.iter().any(|x| x.0 == *c) { r.extra_payloads.push((*c, *sz)); } } }
             for _ in 0..1 + rng.next() % 4 { let (c, s) = codes[(rng.next() as usize) % codes.len()]; let mut e = vec![c]; e.extend(rng.bytes(s as usize)); let i = (rng.next() as usize) % (body.len() + 1); body.insert(i, e); }
         }
         let mut junk = vec![];
